@@ -134,6 +134,7 @@ def gen_case(r, big=False, natural=False, errs=False):
         ss.append(Sess(r.choice([1, 1, 1, 2, 2, 3, 4]), r.choice([1, 1, 2, 2, 4]), est0,
                        client=r.random() > 0.35))
         est0s.append(est0)
+    all_clients = all(x.client for x in ss)
     next_mid = [r.randrange(1, 40000) for _ in range(nsess)]   # (50000.. = the library's own pings)
     next_tok = [10000 + 1000 * k for k in range(nsess)]   # away from libcoap's own state tokens (1, 2, ...)
     nsub = r.randrange(1, 21) if not big else r.randrange(10, 21)
@@ -169,6 +170,17 @@ def gen_case(r, big=False, natural=False, errs=False):
                 mid = next_mid[k]
             next_tok[k] += 1
             tok = next_tok[k]
+            same = [q[2] for q in s.sq if q[2] != 0]
+            if con and same and all_clients and s.open and s.est and s.act < s.nstart and not natural and not errs \
+                    and r.random() < 0.15:
+                # a second request with the token of one that is in flight (observe registration
+                # and its cancel, a retry): cancel by token then removes several nodes at once.
+                # Only when it goes out at once: a HELD message with the token of an in-flight one
+                # would make the outcome depend on the timer order of the send queue.  Only in
+                # contexts without resources (no server-side session): there a Reset also cancels
+                # every message with the token of the reset one (coap_cancel), which the model of
+                # the RST branch does not have.
+                tok = r.choice(same)
             ops.append("S%d,%s,%d,%d" % (k, "c" if con else "n", mid, tok))
             fresh = mid not in s.used
             s.submit(con, mid, tok)
@@ -224,7 +236,7 @@ def gen_case(r, big=False, natural=False, errs=False):
                 in_scope = False
             ops.append("%s%d,%d" % (kind, k, arg))
             if not natural or arg in infl:
-                s.ack(arg)
+                (s.ack if kind == "A" else s.rst)(arg)
         elif kind == "T":
             ops.append("T%d,%d" % (k, arg))
             s.tick(arg)
@@ -291,7 +303,7 @@ def line_of(prefix, ops):
     return " ".join(list(prefix) + list(ops))
 
 
-def enum_cases(depth, nstart, maxrt, est0, max_sub=3, client=True, hooks=False):
+def enum_cases(depth, nstart, maxrt, est0, max_sub=3, client=True, hooks=False, sametok=False):
     """Exhaustive small scope: every history of exactly `depth` events over the alphabet
     {S con, S non, and for every message id submitted so far: A R T P, plus one unknown id for A R,
      U, F1, F4} on one session; ids are 1,2,3.. in submission order, tokens 10000+id.
@@ -314,9 +326,12 @@ def enum_cases(depth, nstart, maxrt, est0, max_sub=3, client=True, hooks=False):
             return
         alpha = []
         if nsub < max_sub:
-            alpha += ["S0,c,%d,%d" % (nsub + 1, 10001 + nsub), "S0,n,%d,%d" % (nsub + 1, 10001 + nsub)]
+            tk = 10001 if sametok else 10001 + nsub
+            alpha += ["S0,c,%d,%d" % (nsub + 1, tk), "S0,n,%d,%d" % (nsub + 1, tk)]
         for m in range(1, nsub + 1):
-            alpha += ["A0,%d" % m, "R0,%d" % m, "T0,%d" % m, "P0,%d" % (10000 + m)]
+            alpha += ["A0,%d" % m, "R0,%d" % m, "T0,%d" % m]
+            if not sametok or m == 1:
+                alpha.append("P0,%d" % (10000 + m))
         alpha += ["U0", "F0,1", "F0,4"]
         if client:
             alpha.append("G0")
